@@ -46,13 +46,16 @@ class Taint:
     def __init__(self, repo):
         self.repo = repo
         self.attrs = {c: set(s) for c, s in SEEDS.items()}
+        self.props = {}        # cls -> names of properties that return private material (computed, not stored)
         self.methods = {}      # (cls, method) -> True when some return path contains private material with default-ish args
         self.not_analysed = []
 
-    def cls_attrs(self, cls):
+    def cls_attrs(self, cls, stored_only=False):
         out = set()
         for c in self.repo.mro(cls):
             out |= self.attrs.get(c, set())
+            if not stored_only:
+                out |= self.props.get(c, set())
         return out
 
     def contains(self, t, cls, pc=None, pparams=(), depth=0):
@@ -209,12 +212,22 @@ def compute_taint(ctx):
                 for p in PRIVATE_PARAMS.get(q, ()):
                     args[p] = S(('var', p))
                 try:
-                    it.run_function(fn, args)
+                    exits = it.run_function(fn, args)
                     analysed += 1 if rounds == 1 else 0
                 except AnalysisError as e:
                     if rounds == 1:
                         T.not_analysed.append('%s (%s)' % (q, str(e)[:60]))
                     continue
+                # a property that hands out private material is read like an attribute: `self.keys_private`
+                if any(isinstance(d, ast.Name) and d.id == 'property' for d in fn.decorator_list) and mname not in T.cls_attrs(cls):
+                    for e in exits:
+                        if e.kind == 'return' and e.value is not None:
+                            hit = T.contains(term(e.value), cls, e.pc, ())
+                            if hit:
+                                T.props.setdefault(cls, set()).add(mname)
+                                changed = True
+                                ctx.saw('%s is a property that returns private material (%s)' % (q, show(hit)[:50]))
+                                break
                 for attr, hit, node in found:
                     if attr not in T.attrs.setdefault(cls, set()):
                         T.attrs[cls].add(attr)
@@ -272,7 +285,7 @@ def public_clears(ctx):
         K = term(e.value)
         if not (K == SELF or (isinstance(K, tuple) and K[0] == 'copy' and K[1] == SELF)):
             ctx.undecided('%s returns %s, expected self or deepcopy(self)' % (q, show(K)[:60]))
-        for a in sorted(T.cls_attrs(cls)):
+        for a in sorted(T.cls_attrs(cls, stored_only=True)):
             key = ('attr', K, a)
             if key not in e.heap:
                 ctx.saw('%s: %s NOT assigned' % (q, a))
@@ -752,3 +765,50 @@ def _elif_private(tree):
                             del f.body[i + 1]
                             return True
     return False
+
+
+@PROP.obligation('C16.public-master', canaries=[
+    mut.replace_stmt('keys', 'HDKey.public_master', 'path_template, purpose, _ = get_key_structure_data', "if self.key_type == 'single':\n    return self\npath_template, purpose, _ = get_key_structure_data(self.witness_type, self.multisig, purpose)", 'single keys are their own public master'),
+    mut.replace_expr('keys', 'HDKey.public_master', 'self.subkey_for_path(path).public()', 'self.subkey_for_path(path)', 'public master not stripped'),
+])
+def public_master(ctx):
+    """HDKey.public_master / public_master_multisig with the default as_private=False - what a cosigner hands to the other cosigners,
+    what Wallet exports as the watch-only key - is evaluated for a PRIVATE key of key type bip32 and of key type single (the single-key
+    cosigners of multisig wallets) with every combination of multisig / witness_type arguments: each way out is an exception or the
+    result of .public() - never self or a derived key that still carries the secret."""
+    n = 0
+    for meth in ('public_master', 'public_master_multisig'):
+        q = ctx.repo.resolve_method('keys:HDKey', meth)
+        if q is None:
+            ctx.undecided('HDKey.%s vanished' % meth)
+        fn = ctx.repo.func(q)
+        for ktype in ('bip32', 'single'):
+            for ms, wt in ((False, None), (True, None), (False, 'segwit'), (True, 'p2sh-segwit')):
+                def attr_hook(interp, base, name, st, ktype=ktype):
+                    if term(base) == SELF:
+                        if name == 'is_private':
+                            return True
+                        if name == 'key_type':
+                            return ktype
+                    return NotImplemented
+                hooks = {'get_key_structure_data': lambda it, a, kw, st, node: (["m", "purpose'", "coin_type'", "account'", 'change', 'address_index'], 44, 'base58'),
+                         'path_expand': lambda it, a, kw, st, node: S(('var', 'path'), 'list')}
+                it = Interp(ctx.repo, 'keys', hooks=hooks, self_cls='keys:HDKey', attr_hook=attr_hook, inline=['self.public_master'])
+                args = {'self': S(SELF), 'account_id': 0, 'purpose': None, 'witness_type': wt, 'as_private': False}
+                if meth == 'public_master':
+                    args['multisig'] = ms
+                try:
+                    exits = it.run_function(fn, args)
+                except AnalysisError as e:
+                    ctx.undecided('HDKey.%s on a private %s key not evaluable: %s' % (meth, ktype, str(e)[:100]))
+                n += 1
+                for e in exits:
+                    if e.kind != 'return':
+                        continue
+                    v = term(e.value)
+                    ok = isinstance(v, tuple) and v and v[0] == 'mcall' and v[2] == 'public'
+                    if not ok:
+                        ctx.violate(q, 'on a private key of type %s, %s(multisig=%s, witness_type=%r) returns `%s`, which is not the result of .public()' % (ktype, meth, ms, wt, show(v)[:60]), e.node or fn,
+                                    'the "public master" handed to cosigners / exported for a watch-only wallet is the unstripped private key object')
+                ctx.saw('%s, private %s key, multisig=%s, witness_type=%s -> %s' % (meth, ktype, ms, wt, sorted(set('%s %s' % (e.kind, show(term(e.value))[:40]) for e in exits))))
+    ctx.floor(n, 16, 'public-master scenarios')
